@@ -41,6 +41,11 @@ type Profile struct {
 	// Posix: string types may carry openconfig-extensions:posix-pattern
 	// statements (the scenario then includes a module of that name).
 	Posix bool
+	// LateAugments: augment targets may lie below the implicit case of a
+	// shorthand choice member (their path exists only after the library has
+	// inserted the implicit cases; outside C07's claim, the reference model
+	// reports such an augment as not found).  Used by C04 only.
+	LateAugments bool
 	// PrefixTraps: modules may declare equal own prefixes and import other
 	// modules under arbitrary (per importer unique) prefixes, so that one prefix
 	// string means different modules in different texts.
@@ -897,6 +902,7 @@ func (g *gen) augments() {
 		}
 		all := collectTargets(cp, g.s)
 		var cand []target
+		late := map[*XNode]bool{}
 		for _, c := range all {
 			switch c.x.Kind {
 			case KContainer, KList, KChoice, KCase, KInput, KOutput, KNotification:
@@ -910,8 +916,11 @@ func (g *gen) augments() {
 						imp = true
 					}
 				}
-				if imp {
+				if imp && !g.p.LateAugments {
 					continue
+				}
+				if imp {
+					late[c.x] = true
 				}
 				cand = append(cand, c)
 			}
@@ -944,13 +953,33 @@ func (g *gen) augments() {
 		if len(chain) > 0 && t.Chance(1, 2) {
 			tg = chain[t.Intn(len(chain))]
 		}
+		if g.p.LateAugments && len(late) > 0 && t.Chance(1, 2) {
+			var ls []target
+			for _, c := range cand {
+				if late[c.x] {
+					ls = append(ls, c)
+				}
+			}
+			tg = ls[t.Intn(len(ls))]
+			// a choice below an implicit case: what the augment adds needs an
+			// implicit case of its own, after the last pass that inserts them
+			var lc []target
+			for _, c := range ls {
+				if c.x.Kind == KChoice {
+					lc = append(lc, c)
+				}
+			}
+			if len(lc) > 0 && t.Chance(2, 3) {
+				tg = lc[t.Intn(len(lc))]
+			}
+		}
 		// which module writes the augment
 		mi := t.Intn(len(g.mods))
 		am := g.mods[mi]
 		if subs := g.subsOf[am.Name]; len(subs) > 0 && t.Chance(1, 4) {
 			am = subs[t.Intn(len(subs))]
 		}
-		a := &Augment{Target: tg.steps}
+		a := &Augment{Target: tg.steps, Late: late[tg.x]}
 		sc := &scope{v: g.visibleFrom(mi, am)}
 		for p := tg.x; p != nil; p = p.Parent {
 			if p.Kind == KRPC || p.Kind == KAction || p.Kind == KNotification || p.Kind == KInput || p.Kind == KOutput {
@@ -970,6 +999,15 @@ func (g *gen) augments() {
 		a.Body = g.body(mi, am, sc, where, g.p.Depth-1, t.Range(1, 3))
 		if where == KChoice {
 			// shorthand members under an augmented choice: keep to explicit cases and containers
+		}
+		if late[tg.x] && t.Chance(1, 2) {
+			// something that needs an implicit case of its own
+			lf := &Node{Kind: KLeaf, Name: g.id("l"), Type: &Type{Ref: Ref{Mod: "", Name: "string"}}}
+			if where == KChoice {
+				a.Body = append(a.Body, lf)
+			} else {
+				a.Body = append(a.Body, &Node{Kind: KChoice, Name: g.id("ch"), Kids: []*Node{lf}})
+			}
 		}
 		if g.p.Extras && t.Chance(1, 6) {
 			a.When = "../" + g.id("w")
@@ -1002,6 +1040,11 @@ func (g *gen) augments() {
 			}
 		}
 		am.Augments = append(am.Augments, a)
+		if a.Late {
+			// the reference model reports it as not found (outside C07's
+			// claim); it is the last augment of the scenario
+			return
+		}
 		if g.invalid == 0 {
 			if chk := Compile(g.s); len(chk.Conflicts) > 0 {
 				// the body collided with what the target already holds (e.g. the
